@@ -5,7 +5,7 @@ import json, os, re, sys
 
 VERIF = os.path.dirname(os.path.dirname(os.path.abspath(__file__)))
 prev, new, pdir = sys.argv[1], sys.argv[2], sys.argv[3]
-WORDS = {2: 'two', 3: 'three', 4: 'four', 5: 'five', 6: 'six', 7: 'seven', 8: 'eight', 9: 'nine', 10: 'ten', 11: 'eleven', 12: 'twelve'}
+WORDS = {2: 'two', 3: 'three', 4: 'four', 5: 'five', 6: 'six', 7: 'seven', 8: 'eight', 9: 'nine', 10: 'ten', 11: 'eleven', 12: 'twelve', 13: 'thirteen'}
 STEER = {
     'f': ("Look for what is LEFT: values and sizes at representation boundaries (lengths and counts of 255/256/257 with one- and "
           "two-byte length fields, integers wider than 8 bytes, bit runs longer than 8 bytes, negative numbers in every place an integer is accepted, "
@@ -72,6 +72,17 @@ STEER = {
           "declaration is treated in a corner; a convenience normalisation (strip, lower, int(), bytes(), sorted()) applied where identity mattered. It "
           "must not be one of the mechanisms listed above, must stay invisible in ordinary use and in the doc examples, and the existing 40 tests must "
           "still pass."),
+    'm': ("This time the change must look like a MODERNISATION or HARDENING commit: code moved to newer Python idioms - functools.lru_cache / "
+          "cached_property / functools.cache on a method or helper (what is the key? what if the argument is mutated or unhashable?), dataclasses or "
+          "__slots__ added to a helper class, int.to_bytes / from_bytes with their defaults, bytes.hex / fromhex, str / bytes methods (removeprefix, "
+          "partition, split with maxsplit) in place of manual slicing, enumerate / zip(strict=...) / itertools in place of index loops, the walrus "
+          "operator, match statements, dict union, contextlib.suppress, super() without arguments, an Enum or a constant table in place of literals, "
+          "typing-driven 'narrowing' (isinstance checks that now reject or coerce an input that used to work: bool, int subclasses, bytearray, "
+          "memoryview, tuples for lists, generators); or DEFENSIVE input validation and nicer error messages added at an API boundary that evaluate "
+          "something eagerly, consume an iterator, clamp a value, copy or fail to copy an argument, or turn a late error into an early one of another "
+          "class. Exactly one of the edits must subtly change behaviour for an input, declaration or sequence of calls that used to work and is "
+          "plausible in real use; it must not be one of the mechanisms listed above, must stay invisible in ordinary use and in the doc examples, and "
+          "the existing 40 tests must still pass."),
 }
 for i in range(1, 21):
     pid = 'C%02d' % i
